@@ -160,6 +160,13 @@ theorem cm_atoms_distinct : PtGen.cmAtoms.Nodup := by decide +kernel
 
 theorem cm_lengths : PtGen.cmEntries.length = PtGen.cmAtoms.length := by decide +kernel
 
+/-- the `#S` symbols are pairwise distinct -/
+theorem cm_symbols_distinct : (PtGen.cmEntries.map (·.symbol)).Nodup := by decide +kernel
+
+/-- CFML: entries that name the same element, charge and kind carry the same numbers (the one
+    repeated entry, `JHO2`, is an exact duplicate), so it does not matter which one is served -/
+theorem mag_duplicates_agree : magAgree zOf PtGen.magRows = true := by decide +kernel
+
 /-- **every entry that names an atom or ion has `|Σa + c − (Z − q)| ≤ 0.05`** – the block of
     numbers belongs to the element and charge its `#S` line names -/
 theorem cm_entries_match_their_atom :
@@ -185,6 +192,31 @@ theorem generated_covalent_radius (z : Nat) (r dr : Dec) (h : CovRow.row z r dr 
   have := (List.nodup_append.mp hs).2.1
   rw [List.nodup_cons] at this
   exact this.1 (List.mem_filterMap.mpr ⟨x, hx, e⟩)
+
+/-- every element is served slot Z of the embedded list -/
+theorem generated_crystal_structure (z : Nat) :
+    aget z (Crystal.load PtGen.crystalList) = PtGen.crystalList[z]? := crystal_is_index _ z
+
+/-- every row of the emission-line table is served to the element it names -/
+theorem generated_emission_lines (r : LineRow) (hr : r ∈ PtGen.lineRows) (z : Nat) (hz : zOf r.sym = some z) :
+    aget z (Lines.loadRows zOf PtGen.lineRows) = some (r.kAlpha, r.kBeta1) := by
+  obtain ⟨pre, post, hsplit, hlast⟩ :=
+    split_of_mem_nodup_filterMap (fun r : LineRow => zOf r.sym) PtGen.lineRows lines_elements_distinct r z hz hr
+  rw [hsplit]
+  exact lines_last_row zOf pre post r z hz hlast
+
+/-- every CFML entry is served to the charge state it names -/
+theorem generated_magnetic_coefficients (r : MagRow) (hr : r ∈ PtGen.magRows) (z : Nat) (hz : zOf r.sym = some z) :
+    ((aget (z, r.charge) (Mag.loadRows zOf PtGen.magRows)).getD {}).get r.jn = some r.values := by
+  rw [mag_coefficients]
+  apply magSpec_of_agree zOf z r.charge r.jn PtGen.magRows r hr ⟨hz, rfl, rfl⟩
+  intro x hx hk
+  apply magAgree_sound zOf PtGen.magRows mag_duplicates_agree r x hr hx
+  simp only [magKey, hk.1, hk.2.1, hk.2.2, hz]
+
+/-- every block of f0_WaasKirf.dat is served to its own symbol -/
+theorem generated_cm_entry (e : CMEntry) (he : e ∈ PtGen.cmEntries) :
+    aget e.symbol (CM.load PtGen.cmEntries) = some e := cm_entry_of_mem _ cm_symbols_distinct e he
 
 /-- every `<j0>` set of the embedded table evaluates to 1 within 0.5 % at Q = 0 -/
 theorem generated_j0_at_Q0 (r : MagRow) (hr : r ∈ PtGen.magRows) (hj : r.jn = .j0) :
